@@ -21,7 +21,105 @@ NSH = 15
 
 
 def shards(tier, seed):
-    return [(tier, "graph", i) for i in range(NSH)] + [(tier, "tlc", 0)]
+    return [(tier, "graph", i) for i in range(NSH)] + [(tier, "tlc", 0), (tier, "reentrant", 0)]
+
+
+def reentrant_fanout():
+    """a client that reacts synchronously inside message_from_device (the in-process SnoopingClient, a Proxy) by
+    sending a request, which makes a device publish another message while the first fan-out is still running.
+    Every client must get both messages exactly according to ITS policy, whatever is in flight."""
+    import itertools
+
+    import indi.message as M
+    from indi.routing import Client, Device, Router
+
+    res = {"states": 0, "transitions": 0, "violations": [], "samples": [], "counters": {}, "sends": 0, "deliveries": 0, "nondeliveries": 0}
+    sig = {}
+    pols = (None, "Never", "Also", "Only")
+    for outer_blob, nested_blob in itertools.product((True, False), repeat=2):
+        for pa, pb, pc in itertools.product(pols, repeat=3):
+            for reactor in (0, 1, 2):
+                router = Router()
+                log = []
+
+                def mk(blob, tag):
+                    from indi.message import one_parts
+
+                    if blob:
+                        return M.SetBLOBVector(device="D", name=tag, state="Ok", children=[one_parts.OneBLOB(name="a", size=2, format=".x", value="YWI=")])
+                    return M.SetTextVector(device="D", name=tag, state="Ok", children=[one_parts.OneText(name="a", value="v")])
+
+                nested_msg = mk(nested_blob, "NESTED")
+                outer_msg = mk(outer_blob, "OUTER")
+
+                class Dev(Device):
+                    def accepts(self, device):
+                        return True
+
+                    def message_from_client(self, message):
+                        if isinstance(message, M.GetProperties):
+                            router.process_message(nested_msg, sender=self)
+
+                class C(Client):
+                    def __init__(self, idx):
+                        self.idx, self.reacted = idx, False
+
+                    def message_from_device(self, message):
+                        log.append((self.idx, message.name))
+                        if self.idx == reactor and not self.reacted and message is outer_msg:
+                            self.reacted = True
+                            router.process_message(M.GetProperties(version="1.7", device="D"), sender=self)
+
+                dev = Dev()
+                router.register_device(dev)
+                cl = [C(i) for i in range(3)]
+                for c, p in zip(cl, (pa, pb, pc)):
+                    router.register_client(c)
+                    if p:
+                        router.process_message(M.IndiMessage.from_string('<enableBLOB device="D">%s</enableBLOB>' % p), sender=c)
+                exc = None
+                try:
+                    router.process_message(outer_msg, sender=dev)
+                except Exception as e:  # noqa
+                    exc = e
+                res["transitions"] += 1
+                res["sends"] += 2
+
+                def wants(p, blob):
+                    p = p or "Never"
+                    return p in ("Also", "Only") if blob else p in ("Never", "Also")
+
+                want = []
+                for i, p in enumerate((pa, pb, pc)):
+                    if wants(p, outer_blob):
+                        want.append((i, "OUTER"))
+                reacted = wants((pa, pb, pc)[reactor], outer_blob)
+                if reacted:
+                    for i, p in enumerate((pa, pb, pc)):
+                        if wants(p, nested_blob):
+                            want.append((i, "NESTED"))
+                        # the reactor's getProperties is also relayed to the other clients (non-BLOB traffic)
+                        if i != reactor and wants(p, False):
+                            want.append((i, None))
+                res["deliveries"] += len(log)
+                got = sorted(log, key=repr)
+                if exc is not None:
+                    from mc import lib
+
+                    key = ("raises", "reentrant," + lib.exc_site(exc))
+                    what = repr(exc)
+                elif got != sorted(want, key=repr):
+                    key = ("reentrant-delivery", "outer=%s,nested=%s" % ("blob" if outer_blob else "text", "blob" if nested_blob else "text"))
+                    what = "policies %r reactor %d: deliveries %r, expected %r" % ((pa, pb, pc), reactor, got, sorted(want, key=repr))
+                else:
+                    continue
+                if key in sig:
+                    sig[key]["count"] += 1
+                else:
+                    sig[key] = {"clause": key[0], "disc": key[1], "what": what, "count": 1, "replay": {"reentrant": True}}
+    res["violations"] = list(sig.values())
+    res["states"] = 1
+    return res
 
 
 def check(model, ev, got, exc, exp):
@@ -62,6 +160,8 @@ def run_shard(shard):
     if what == "graph":
         st = R.explore(n, KINDS, check, idx, NSH)
         return c04.pack(st, n, idx)
+    if what == "reentrant":
+        return reentrant_fanout()
     return run_tlc(tier, n)
 
 
@@ -215,6 +315,8 @@ def finish(tier, seed, m):
 
 
 def replay(rep):
+    if rep.get("reentrant"):
+        return [{"clause": v["clause"], "disc": v["disc"], "what": v["what"]} for v in reentrant_fanout()["violations"]]
     if rep.get("tlc"):
         path = [c04._t(e) for e in rep["path"]]
         n = rep["nclients"]
